@@ -13,6 +13,7 @@ import (
 	"math/rand"
 	"os"
 	"path/filepath"
+	"strings"
 
 	"git.metabarcoding.org/obitools/obitools4/obitools4/pkg/obiformats"
 	"github.com/dsnet/compress/bzip2"
@@ -39,6 +40,7 @@ type faultFile struct {
 	Nrec    int    `json:"nrec"`
 	ErrText string `json:"errtext"`
 	SizeTag string `json:"size"`
+	Variant string `json:"variant"` // gz only: "" | "named" (optional header fields) | "members" (several members)
 	Pgz     string `json:"pgz"` // gz only: does klauspost/pgzip (the reader the repository links) itself report the fault ?
 }
 
@@ -176,7 +178,7 @@ func recordC17(env *Env) {
 	for _, b := range bases {
 		codecs := []string{"gz", "bz2", "xz", "zst"}
 		if b.tag == "small" {
-			codecs = append(codecs, "gzn")
+			codecs = append(codecs, "gzn", "gzm")
 		}
 		for _, codec := range codecs {
 			ext := map[string]string{"fasta": "fa", "fastq": "fq"}[b.format]
@@ -185,6 +187,31 @@ func recordC17(env *Env) {
 				panic(fmt.Sprint("compress ", codec, ": ", err))
 			}
 			hdr := 0
+			var members []int // gzm: offsets at which the second, third ... gzip members start
+			if codec == "gzm" {
+				// several gzip members one after the other (cat a.gz b.gz, bgzip, pigz -i): one stream for every reader
+				codec = "gz"
+				var zb bytes.Buffer
+				lines := strings.SplitAfter(b.text, "\n")
+				cut := func(k int) int { // a record boundary near k/3 of the lines
+					per := 2
+					if b.format == "fastq" {
+						per = 4
+					}
+					x := len(lines) * k / 3
+					return x - x%per
+				}
+				parts := []string{strings.Join(lines[:cut(1)], ""), strings.Join(lines[cut(1):cut(2)], ""), strings.Join(lines[cut(2):], "")}
+				for i, part := range parts {
+					if i > 0 {
+						members = append(members, zb.Len())
+					}
+					zw := gzip.NewWriter(&zb)
+					zw.Write([]byte(part))
+					zw.Close()
+				}
+				cdata = zb.Bytes()
+			}
 			if codec == "gzn" {
 				// a gzip member as the gzip command writes it: with the optional header fields (extra field, original
 				// file name, comment) in front of the deflate data
@@ -200,6 +227,11 @@ func recordC17(env *Env) {
 				hdr = 10 + 2 + len(zw.Extra) + len(zw.Name) + 1 + len(zw.Comment) + 1
 			}
 			proto := faultFile{Codec: codec, Fmt: b.format, Clen: len(cdata), D: len(b.text), Nrec: b.nrec, SizeTag: b.tag}
+			if hdr > 0 {
+				proto.Variant = "named"
+			} else if len(members) > 0 {
+				proto.Variant = "members"
+			}
 			// intact file
 			f := proto
 			f.Fault = "none"
@@ -259,8 +291,16 @@ func recordC17(env *Env) {
 				if per == 0 {
 					nf = 200
 				}
+				flips := []int{}
+				for _, m := range members { // the magic number and method byte of every later member
+					for bit := m * 8; bit < (m+3)*8; bit++ {
+						flips = append(flips, bit)
+					}
+				}
 				for i := 0; i < nf; i++ {
-					bit := r.Intn(len(cdata) * 8)
+					flips = append(flips, r.Intn(len(cdata)*8))
+				}
+				for _, bit := range flips {
 					mut := append([]byte(nil), cdata...)
 					mut[bit/8] ^= 1 << uint(bit%8)
 					f := proto
